@@ -6,6 +6,7 @@ name="$1"; what="$2"; id="$3"; tier="${4:-quick}"
 wt="/tmp/hcmut-$name"
 git -C /repo worktree remove --force "$wt" >/dev/null 2>&1
 if [ -f "$what" ]; then
+  what="$(realpath "$what")"
   git -C /repo worktree add --detach "$wt" HEAD >/dev/null 2>&1 || exit 2
   git -C "$wt" apply "$what" || { echo "patch does not apply"; git -C /repo worktree remove --force "$wt"; exit 2; }
 else
